@@ -6,7 +6,7 @@ What == IOEnv.VH_WHAT
 OutF == IOEnv.VH_OUT
 NN   == atoi(IOEnv.VH_N)
 
-PatSet == IF IOEnv.VH_PROF = "ctxfill" THEN CtxFillPats ELSE IF IOEnv.VH_PROF = "condctx" THEN CondCtxFillPats ELSE PatsOfSize(NN, Prof(IOEnv.VH_PROF))
+PatSet == IF IOEnv.VH_PROF = "ctxfill" THEN CtxFillPats ELSE IF IOEnv.VH_PROF = "condctx" THEN CondCtxFillPats ELSE IF IOEnv.VH_PROF = "wildshapes" THEN WildShapePats ELSE PatsOfSize(NN, Prof(IOEnv.VH_PROF))
 PatRecs == LET S == SetToSeq(PatSet)
            IN [q \in 1..Len(S) |-> [id |-> q, ast |-> S[q].ast, ng |-> S[q].ng]]
 \* single-site injections of every pattern of the base space
